@@ -25,7 +25,8 @@
   * `ContestKind`, `ReportedOutcomeWrong`, `wrong_outcome_polling_risk_limit`, `wrong_outcome_comparison_risk_limit`,
     and, for a state of several contests, `audit_polling_risk_limit` / `audit_comparison_risk_limit`:
     if ANY contest's reported outcome is wrong, the audit is ever reported complete with probability at most the
-    largest risk limit (`maxRiskLimit`).
+    largest risk limit (`maxRiskLimit`); `audit_outcome_risk_limit`: the same when each contest has its own audit
+    method (`AuditMethod`: polling / comparison with its style flag).
   * non-vacuity: a two-winner contest on five cards whose third candidate ties the second.
 -/
 import Shangrla.Props.RiskLimitPlurality
@@ -533,6 +534,112 @@ theorem audit_comparison_risk_limit {α : Type} (ballot : α → CVR) (cards : L
   obtain ⟨c, hc, hw⟩ := hwrong
   exact ⟨h1, le_trans (h1 c hc hw) (riskLimit_le_max s c hc)⟩
 
+/-! ### contests audited by different methods in one audit
+
+`con.audit_type` is an attribute of the contest: one audit can poll some contests and compare others.  On a population
+of cards of any type `α` (a card gives its manual record `ballot x`), a polling assertion uses EVERY drawn card
+(`mvrs_to_data` L1664-1669: "assume style information is irrelevant") — its datum is `some (assort (ballot x))`. -/
+
+/-- `PollingAssertion` on cards of any type, for `auditCompleteOpt` -/
+def PollingAssertionCards {α : Type} (ballot : α → CVR) (data : String → String → α → Option ℚ)
+    (T : String → String → SeqTest) (c : Contest) (n : Nat) (assort : CVR → ℚ) (u : ℚ) : Prop :=
+  ∃ a ∈ c.assertions, (data c.id a.name = fun x => some (assort (ballot x))) ∧
+    ∃ (sqrtF : ℚ → ℚ) (cfg : NM.Cfg) (test : NM.Test),
+      cfg.N = some n ∧ cfg.t = 1 / 2 ∧ cfg.u = u ∧
+      T c.id a.name = NM.run sqrtF cfg test ∧ C01.DocumentedFinite sqrtF cfg test
+
+/-- a polling assertion whose assorter values lie in `[0,u]` and average at most 1/2 over the cards cast -/
+theorem polling_cards_risk_limit {α : Type} (ballot : α → CVR) (cards : List α)
+    (data : String → String → α → Option ℚ) (T : String → String → SeqTest) (s : State)
+    (c : Contest) (hc : c ∈ s) (assort : CVR → ℚ) (u : ℚ)
+    (hasn : PollingAssertionCards ballot data T c cards.length assort u)
+    (hr0 : 0 < c.riskLimit) (hr1 : c.riskLimit < 1)
+    (hrange : ∀ b, 0 ≤ assort b ∧ assort b ≤ u)
+    (hnull : ((cards.map ballot).map assort).sum ≤ ((cards.map ballot).length : ℚ) * (1 / 2)) :
+    hitG (auditCompleteOpt data T s) cards.length cards [] ≤ c.riskLimit := by
+  obtain ⟨a, ha, hdata, sqrtF, cfg, test, hN, ht, hu, hT, hdoc⟩ := hasn
+  have hD : cards.filterMap (data c.id a.name) = (cards.map ballot).map assort := by
+    rw [hdata, List.map_map]
+    exact congrFun (List.filterMap_eq_map' (f := fun x => assort (ballot x))) cards
+  apply audit_risk_limit_style_run data T s c hc a ha cards sqrtF cfg test _ hT hdoc hr0 hr1
+  · rw [hD, hu]
+    intro v hv
+    obtain ⟨b, _, rfl⟩ := List.mem_map.mp hv
+    exact hrange b
+  · rw [hD, ht, List.length_map]
+    exact hnull
+  · rw [hD, List.length_map, List.length_map]
+    exact hN
+
+/-- how a contest is audited -/
+inductive AuditMethod (α : Type) where
+  /-- ballot polling: every drawn card is used -/
+  | polling
+  /-- card-level comparison or ONEAudit, with the contest's style flag and "the card's CVR lists the contest" -/
+  | comparison (useStyle : Bool) (listed : α → Bool)
+
+/-- contest `c` carries the assertions of its kind, set up for its audit method -/
+def AuditedBy {α : Type} (ballot : α → CVR) (cards : List α) (data : String → String → α → Option ℚ)
+    (T : String → String → SeqTest) (c : Contest) : AuditMethod α → ContestKind → Prop
+  | .polling, .plurality contest W L => ∀ w ∈ W, ∀ l ∈ L,
+      PollingAssertionCards ballot data T c cards.length (plurality contest w l) 1
+  | .polling, .supermajority contest w cands f =>
+      0 < f ∧ f < 1 ∧
+        PollingAssertionCards ballot data T c cards.length (supermajority contest w cands f) (superUpper f)
+  | .comparison useStyle listed, kind => ComparisonAudited ballot cards useStyle listed data T c kind
+
+/-- the reported outcome is wrong, as the contest's audit method can see it: polling — on the cards cast;
+comparison — cannot be confirmed from the found ballots of the cards under audit -/
+def OutcomeWrongFor {α : Type} (ballot : α → CVR) (cards : List α) : AuditMethod α → ContestKind → Prop
+  | .polling, kind => ReportedOutcomeWrong kind (cards.map ballot)
+  | .comparison useStyle listed, kind =>
+      ReportedOutcomeUnconfirmed (lostOf useStyle kind.contest ballot listed cards) kind
+        (foundOf useStyle kind.contest ballot listed cards)
+
+/-- one contest wrong, whatever its method and kind -/
+theorem wrong_outcome_risk_limit {α : Type} (ballot : α → CVR) (cards : List α)
+    (data : String → String → α → Option ℚ) (T : String → String → SeqTest) (s : State)
+    (c : Contest) (hc : c ∈ s) (method : AuditMethod α) (kind : ContestKind)
+    (haud : AuditedBy ballot cards data T c method kind)
+    (hr0 : 0 < c.riskLimit) (hr1 : c.riskLimit < 1)
+    (hwrong : OutcomeWrongFor ballot cards method kind) :
+    hitG (auditCompleteOpt data T s) cards.length cards [] ≤ c.riskLimit := by
+  cases method with
+  | comparison useStyle listed =>
+    exact wrong_outcome_comparison_risk_limit ballot cards useStyle listed data T s c hc kind haud hr0 hr1 hwrong
+  | polling =>
+    cases kind with
+    | plurality contest W L =>
+      obtain ⟨w, hw, l, hl, hle⟩ := (pluralityOutcomeWrong_iff_pair contest W L _).1 hwrong
+      refine polling_cards_risk_limit ballot cards data T s c hc (plurality contest w l) 1 (haud w hw l hl) hr0 hr1
+        (fun b => ⟨(C02.assort_range_plur contest w l b).1, (C02.assort_range_plur contest w l b).2.1⟩)
+        (plurality_null contest w l _ hle)
+    | supermajority contest w cands f =>
+      obtain ⟨hf0, hf1, hasn⟩ := haud
+      exact polling_cards_risk_limit ballot cards data T s c hc (supermajority contest w cands f) (superUpper f)
+        hasn hr0 hr1 (C02.assort_range_super contest w cands f hf0 hf1)
+        (supermajority_null contest w cands f hf0 _ (not_lt.mp hwrong))
+
+/-- **The risk limit of an audit of several contests, each with its own social choice function (plurality / approval
+/ super-majority), reported outcome, audit method (polling / comparison / ONEAudit, style or not) and risk limit.**
+If the reported outcome of ANY contest is wrong — polling: on the cards cast; comparison: not confirmable from the found
+ballots of its cards under audit — the probability, over the orders in which the cards are drawn, that the audit is EVER
+reported complete is at most that contest's risk limit, hence at most the largest risk limit of the audit. -/
+theorem audit_outcome_risk_limit {α : Type} (ballot : α → CVR) (cards : List α)
+    (data : String → String → α → Option ℚ) (T : String → String → SeqTest) (s : State)
+    (method : Contest → AuditMethod α) (kind : Contest → ContestKind)
+    (haud : ∀ c ∈ s, AuditedBy ballot cards data T c (method c) (kind c))
+    (hr : ∀ c ∈ s, 0 < c.riskLimit ∧ c.riskLimit < 1)
+    (hwrong : ∃ c ∈ s, OutcomeWrongFor ballot cards (method c) (kind c)) :
+    (∀ c ∈ s, OutcomeWrongFor ballot cards (method c) (kind c) →
+        hitG (auditCompleteOpt data T s) cards.length cards [] ≤ c.riskLimit) ∧
+      hitG (auditCompleteOpt data T s) cards.length cards [] ≤ maxRiskLimit s := by
+  have h1 : ∀ c ∈ s, OutcomeWrongFor ballot cards (method c) (kind c) →
+      hitG (auditCompleteOpt data T s) cards.length cards [] ≤ c.riskLimit := fun c hc hw =>
+    wrong_outcome_risk_limit ballot cards data T s c hc (method c) (kind c) (haud c hc) (hr c hc).1 (hr c hc).2 hw
+  obtain ⟨c, hc, hw⟩ := hwrong
+  exact ⟨h1, le_trans (h1 c hc hw) (riskLimit_le_max s c hc)⟩
+
 /-! ### non-vacuity
 
 Contest "AvB", vote for up to two of `a, b, c`; reported winners `a, b`, reported loser `c`.  Five cards were cast:
@@ -659,6 +766,36 @@ example : hitG (auditCompleteOpt dataC2 TC2 s2) 5 cards2 [] ≤ 3/5 :=
 /-- ... and the exact probability over the 120 orders is 2/5 -/
 theorem example_outcome_comparison_exact : hitG (auditCompleteOpt dataC2 TC2 s2) 5 cards2 [] = 2/5 := by
   decide +kernel
+
+/-! `audit_outcome_risk_limit` on the same five cards: once with the contest compared, once with it polled (the polling
+data on a card `(ballot, CVR)` being `some` of the assorter of the ballot) -/
+
+example : hitG (auditCompleteOpt dataC2 TC2 s2) 5 cards2 [] ≤ maxRiskLimit s2 :=
+  (audit_outcome_risk_limit Prod.fst cards2 dataC2 TC2 s2 (fun _ => .comparison false (fun _ => true))
+    (fun _ => .plurality "AvB" ["a", "b"] ["c"])
+    (by intro c hc; rw [List.mem_singleton.1 hc]; exact example_k2_hall_comparison)
+    (by intro c hc; rw [List.mem_singleton.1 hc]; norm_num [c2])
+    ⟨c2, List.mem_singleton.2 rfl, pluralityUnconfirmed_of_wrong _ "AvB" ["a", "b"] ["c"]
+      (foundOf false "AvB" Prod.fst (fun _ => true) cards2) (by rw [example_k2_found]; exact example_k2_wrong)⟩).2
+
+def dataP2 : String → String → CVR × CVR → Option ℚ := fun cid name x => some (data2 cid name x.1)
+
+example : hitG (auditCompleteOpt dataP2 T2 s2) 5 cards2 [] ≤ maxRiskLimit s2 :=
+  (audit_outcome_risk_limit Prod.fst cards2 dataP2 T2 s2 (fun _ => .polling)
+    (fun _ => .plurality "AvB" ["a", "b"] ["c"])
+    (by
+      have hdoc : C01.DocumentedFinite sqrtRat cfg2 (.alpha .fixedAlt) :=
+        ⟨by norm_num [cfg2], ⟨by norm_num [cfg2, eps], by norm_num [cfg2, eps], by norm_num [cfg2]⟩, trivial⟩
+      intro c hc; rw [List.mem_singleton.1 hc]
+      intro w hw l hl
+      simp only [List.mem_cons, List.not_mem_nil, or_false] at hw hl
+      subst hl
+      rcases hw with rfl | rfl
+      · exact ⟨{ name := "a v c" }, by simp [c2], rfl, sqrtRat, cfg2, _, rfl, rfl, rfl, rfl, hdoc⟩
+      · exact ⟨{ name := "b v c" }, by simp [c2], rfl, sqrtRat, cfg2, _, rfl, rfl, rfl, rfl, hdoc⟩)
+    (by intro c hc; rw [List.mem_singleton.1 hc]; norm_num [c2])
+    ⟨c2, List.mem_singleton.2 rfl,
+      (show PluralityOutcomeWrong "AvB" ["a", "b"] ["c"] (cards2.map Prod.fst) from example_k2_wrong)⟩).2
 
 end example_
 
